@@ -80,12 +80,22 @@ func VerifC14_rate_L1() {
 }
 
 func c14Incs(list []uint, D uint) []uint {
+	// a pre-filled distribution (arbitrary small values, chosen or not): Rate ADDS to what is there, and what it
+	// adds - including where the undistributed rest goes - does not depend on what was there
 	dist := map[uint]uint{}
+	pre := make([]uint, len(list))
+	if vChoose("prefilled", 2) == 1 {
+		for i, p := range list {
+			pre[i] = vNondetUint("pre")
+			vAssume(pre[i] < 1<<16)
+			dist[p] = pre[i]
+		}
+	}
 	RateDivider(list, D, dist)
 	inc := make([]uint, len(list))
 	sum := uint(0)
 	for i, p := range list {
-		inc[i] = dist[p]
+		inc[i] = dist[p] - pre[i]
 		sum += inc[i]
 	}
 	vAssert(sum == D, "Rate adds exactly the dividend in total")
